@@ -76,7 +76,8 @@ def limitsValid (existing calculated : Rat × Rat) : Bool :=
   let epsUpper := ratAbs (calculated.2 * tol)
   decide ((calculated.1 - existing.1) ≤ epsLower) && decide ((existing.2 - calculated.2) ≤ epsUpper)
 
-/-- TYPEDEF_MEASUREMENT compares without tolerance -/
+/-- the comparison without tolerance (what TYPEDEF_MEASUREMENT used before fix 5 of DESIGN 9.4; kept for the
+    statement that the tolerant comparison accepts everything the strict one accepts) -/
 def limitsValidStrict (existing calculated : Rat × Rat) : Bool :=
   !(decide (calculated.1 > existing.1) || decide (calculated.2 < existing.2))
 
@@ -91,8 +92,8 @@ def reportsError (carrier : Carrier) (conv : Conv) (dt : DataType) (existing : R
   match calcLimits conv dt with
   | none => none
   | some cl =>
+    -- every carrier goes through `check_limits_valid`
     match carrier with
-    | .typedefMeasurement => some (!limitsValidStrict existing cl)
     | _ => some (!limitsValid existing cl)
 
 end A2l.Lim
